@@ -5,16 +5,19 @@ import json
 import random
 
 import histgen
+import sworld
 import world
 
 
 class HistProp:
     kernel_files = []
-    oracle_vos = ['theories/Run/SCore.vo']
-    model_vos = ['theories/Run/RCore.vo']
+    oracle_vos = ['theories/Run/SCore.vo', 'theories/Run/SSeries.vo']
+    model_vos = ['theories/Run/RCore.vo', 'theories/Run/RSeries.vo']
     kernel_files = ['KCore.v']
-    oracle_imports = ['From DM Require Import Run.SCore.']
-    model_imports = ['From DM Require Import Run.SCore Run.RCore.']
+    oracle_imports = ['From DM Require Import Run.SCore Run.SSeries.']
+    model_imports = ['From DM Require Import Run.SCore Run.RCore Run.RSeries.']
+    series_share = 0.2          # share of the histories that run on tables with SeriesColumns (Spec/SeriesEnc.v)
+    p_series = 0.35
     exhaustive = False
     weights = None
     steps_quick = (10, 22)
@@ -42,14 +45,41 @@ class HistProp:
             'tags': (tags or []) + ['len%02d' % (10 * (len(ops_done) // 10))] + sorted(set(kinds)),
         }
 
+    def make_scase(self, ops_list, seed, tags=None):
+        steps, final, problems, stats = sworld.run_shistory([dict(o) for o in ops_list], seed=seed)
+        kinds = [o['op'] for o in ops_list]
+        changed = sum(1 for o in stats['outcomes'] if not o.startswith('(Err'))
+        return {
+            'input': {'ops': ops_list, 'seed': seed, 'series': True},
+            'observed': {'outcomes': stats['outcomes'], 'rows': stats['rows'], 'python_side_problems': problems[:6]},
+            'pyfail': None,
+            'oracle': '(shist_ok %s %s)' % (steps, final),
+            'oracle_vec': '(shist_vec %s %s)' % (steps, final),
+            'model': '(shist_model_ok %s %s)' % (steps, final),
+            'nontrivial': changed >= 2 and any(k.startswith('s') and k not in ('select', 'slice', 'sort', 'shuffle',
+                                                                                 'sample', 'setcol', 'setcolkind',
+                                                                                 'setcolfromcol', 'setcolfromslice',
+                                                                                 'setcell', 'setlength', 'setsorted')
+                                                for k in kinds),
+            'sig': json.dumps([ops_list, seed, 'series'], sort_keys=True, default=str),
+            'tags': (tags or []) + ['series', 'len%02d' % (10 * (len(ops_list) // 10))] + sorted(set(kinds)),
+        }
+
     def rerun(self, inp):
-        # oracle-supplied arguments (perm) are recomputed by the runner
-        ops_list = [{k: v for k, v in o.items() if k != 'perm'} for o in inp['ops']]
+        # oracle-supplied arguments (perm, cells of column-valued right-hand sides) are recomputed by the runner
+        ops_list = [{k: v for k, v in o.items() if k not in ('perm', 'refused')} for o in inp['ops']]
+        if inp.get('series'):
+            return self.make_scase(ops_list, inp.get('seed', 0), tags=['replay'])
         return self.make_case(ops_list, inp.get('seed', 0), tags=['replay'])
 
     def _one(self, args):
         i, seed, lo, hi = args
         sub = random.Random(seed)
+        if sub.random() < self.series_share:
+            kw = {k: v for k, v in self.gen_kw.items() if k in ('bad_rate', 'max_pool', 'max_rows')}
+            ops_list = sworld.gen_shistory(sub, sub.randint(lo, hi), weights=self.weights, seed=seed,
+                                           p_series=self.p_series, **kw)
+            return self.make_scase(ops_list, seed)
         prefix = self.prefixes[i % len(self.prefixes)]
         ops_list = histgen.gen_history(sub, sub.randint(lo, hi), weights=self.weights, seed=seed, prefix=prefix,
                                        big_first=self.big_first, **self.gen_kw)
@@ -67,10 +97,13 @@ class HistProp:
     def shrink_candidates(self, inp):
         ops_list = inp['ops']
         n = len(ops_list)
+        extra = {'series': True} if inp.get('series') else {}
         # shorter prefixes first
         for m in sorted(set([n // 2, (3 * n) // 4, n - 2, n - 1])):
             if 0 < m < n:
-                yield {'ops': ops_list[:m], 'seed': inp.get('seed', 0)}
+                yield dict({'ops': ops_list[:m], 'seed': inp.get('seed', 0)}, **extra)
+        if extra:
+            return      # the series operations carry the depth the column had: dropping steps would falsify them
         # drop one operation that does not create a pool member
         creating = ('new', 'select', 'merge', 'slice', 'getrows', 'sort', 'shuffle', 'sample', 'concat')
         for i in range(n - 1, -1, -1):
@@ -79,4 +112,4 @@ class HistProp:
 
     def key(self, case):
         ops_list = case['input']['ops']
-        return 'history ' + ' '.join(o['op'] for o in ops_list[-6:])
+        return ('series history ' if case['input'].get('series') else 'history ') + ' '.join(o['op'] for o in ops_list[-6:])
